@@ -53,6 +53,10 @@ def case(world):
     bump("outcome." + oc.split("@")[0])
     viol, keys = [], []
     ctx = {"knobs": knob_key(world), "level": world["obs"].get("level")}
+    # root-cause marker for known finding F08: the penalty handed to a trial step (or held by
+    # the live penalty strategy) has overflowed to a non-finite value
+    ps_rho = getattr(getattr(ex.solver, "penalty_strategy", None), "rho", 1.0)
+    ctx["rho_overflow"] = bool(any(not np.isfinite(t.rho) for t in ex.trials) or not np.isfinite(ps_rho))
     if oc.startswith("crash:"):
         viol.append(V(ID, "internal-crash", "solve() died with %s in %s: %s" % (ex.exc_type, ex.exc_func, (ex.exc_msg or "")[:120]), None, dict(ctx, chain=list(ex.exc_chain)), sig_extra="%s@%s" % (ex.exc_type, ex.exc_func)))
     elif ex.result is not None:
